@@ -129,12 +129,12 @@ def analyse(obs: Obs, prog):
             e = elp(P("key"), val, P("args"))
             want_w = ("phi", flag, e, C(0.0))
             okw = is_t(wt, "phi") and wt[1] == flag and wt[2] == e and is_zero(wt[3])
-            obs.add({"C03", "C35"}, "WEIGHT-GEN", inst + "/weight", okw, derived=wt, expected="flag ? logpdf(constraint value) : 0", where=w)
+            obs.add({"C03", "C35", "C23"}, "WEIGHT-GEN", inst + "/weight", okw, derived=wt, expected="flag ? logpdf(constraint value) : 0", where=w)
             sc, vv = f.get("score"), f.get("value")
             oks = is_t(sc, "phi") and sc[1] == flag and sc[2] == e and sc[3] == mk_proj(RW, 0)
-            obs.add({"C01", "C03", "C35", "C02"}, "TRACE-SCORE", inst + "/score", oks, derived=sc, expected="flag ? logpdf(constraint value) : score of the freshly sampled value", where=w)
+            obs.add({"C01", "C03", "C35", "C02", "C23"}, "TRACE-SCORE", inst + "/score", oks, derived=sc, expected="flag ? logpdf(constraint value) : score of the freshly sampled value", where=w)
             okv = is_t(vv, "phi") and vv[1] == flag and vv[2] == val and vv[3] == mk_proj(RW, 1)
-            obs.add({"C03", "C35", "C01"}, "TRACE-RETVAL", inst + "/value", okv, derived=vv, expected="flag ? constraint value : freshly sampled value", where=w)
+            obs.add({"C03", "C35", "C01", "C23"}, "TRACE-RETVAL", inst + "/value", okv, derived=vv, expected="flag ? constraint value : freshly sampled value", where=w)
         else:
             seen.add("value")
             inst = "Distribution.generate/constrained"
@@ -182,11 +182,11 @@ def analyse(obs: Obs, prog):
             newv, oldv = ("attr", CV, "value"), call0(OLDC, "get_value")
             e_new, e_old = elp(P("key"), newv, pr), elp(P("key"), oldv, pr)
             okv = f.get("value") == ("phi", flag, newv, oldv)
-            obs.add({"C05", "C35"}, "TRACE-RETVAL", inst + "/value", okv, derived=f.get("value"), expected="flag ? constraint value : old value", where=w)
+            obs.add({"C05", "C35", "C23"}, "TRACE-RETVAL", inst + "/value", okv, derived=f.get("value"), expected="flag ? constraint value : old value", where=w)
             oks = f.get("score") == ("phi", flag, e_new, e_old)
-            obs.add({"C05", "C35", "C01"}, "TRACE-SCORE", inst + "/score", oks, derived=f.get("score"), expected="flag ? logpdf(new value) : logpdf(old value), at the new arguments", where=w)
+            obs.add({"C05", "C35", "C01", "C23"}, "TRACE-SCORE", inst + "/score", oks, derived=f.get("score"), expected="flag ? logpdf(new value) : logpdf(old value), at the new arguments", where=w)
             okw = is_t(wt, "phi") and wt[1] == flag and lin(wt[2]) == {frozenset([e_new]): 1, frozenset([OLD]): -1} and lin(wt[3]) == {frozenset([e_old]): 1, frozenset([OLD]): -1}
-            obs.add({"C05", "C35"}, "WEIGHT-UPD", inst + "/weight", okw, derived=wt, expected="flag ? logpdf(new) - old score : logpdf(old | new args) - old score", where=w)
+            obs.add({"C05", "C35", "C23"}, "WEIGHT-UPD", inst + "/weight", okw, derived=wt, expected="flag ? logpdf(new) - old score : logpdf(old | new args) - old score", where=w)
             okb = is_update(bwd, lambda c: is_mcall(c, "mask") and c[1][1] == OLDC and c[2] == (flag,))
             obs.add({"C05", "C06", "C35"}, "BWD-OLDVALUES", inst + "/bwd", okb, derived=bwd, expected="Update(old choices masked by the flag)", where=w)
             obs.add({"C08"}, "TAG-CONSERVATIVE", inst + "/retdiff", is_tag(rd, "unknown_change", f.get("value")), derived=rd, expected="Diff.unknown_change(new value)", where=w)
